@@ -132,6 +132,9 @@ def oracle(ctx, h, obs):
         if bool(holders) != st['lock']:
             return bad('lock-bit', 'lock bit %s but holders %s' % (st['lock'], holders), 'C13_mutex')
         for code, k in [x[:2] for x in st['out']]:
+            if code == 7:
+                return bad('lock-crash-release', 'connectionLost of connection %d raised: what it had to '
+                           'release or abandon is left as it was' % k, 'C13_crash_release')
             if code >= 90:
                 return bad('lock-message', 'malformed message to %d' % k, 'C13_told_truth')
             if code == 1:
